@@ -125,7 +125,7 @@ func run(repo, out string) error {
 		if name == "verif_hooks.go" {
 			continue // the harness' own accessors are not part of the code under test
 		}
-		in := &instr{fset: fset, info: info, varID: varID, pkgVars: pkgVars, file: name, staticWrites: staticWrites}
+		in := &instr{fset: fset, info: info, varID: varID, pkgVars: pkgVars, file: name, staticWrites: staticWrites, pkgPath: pkg.Path()}
 		in.rewrite(f)
 		sites = append(sites, in.sites...)
 		problems = append(problems, in.problems...)
@@ -171,6 +171,7 @@ type instr struct {
 	staticWrites []int
 	nfuncs       int
 	inInit       bool
+	pkgPath      string
 }
 
 func (in *instr) problem(pos token.Pos, msg string) {
@@ -453,8 +454,18 @@ func (in *instr) rewrite(f *ast.File) {
 			in.problem(n.Pos(), "select statement")
 		case *ast.RangeStmt:
 			if tv, ok := in.info.Types[n.X]; ok {
-				if _, isMap := tv.Type.Underlying().(*types.Map); isMap {
-					in.problem(n.Pos(), "range over a map (iteration order)")
+				if mt, isMap := tv.Type.Underlying().(*types.Map); isMap {
+					// own the iteration order: iterate over the entries sorted by key (one canonical order)
+					if !in.rewriteMapRange(n, mt) {
+						in.problem(n.Pos(), "range over a map whose key/value types the instrumenter cannot name (iteration order)")
+					}
+				}
+			}
+		case *ast.AssignStmt:
+			// s += x on strings: charge the size of the result (repeated += is the classic quadratic build)
+			if n.Tok == token.ADD_ASSIGN && len(n.Lhs) == 1 {
+				if tv, ok := in.info.Types[n.Lhs[0]]; ok && isString(tv.Type.Underlying()) {
+					n.Rhs[0] = vrtCall("CatAssign", n.Lhs[0], n.Rhs[0])
 				}
 			}
 		case *ast.GoStmt:
@@ -471,6 +482,28 @@ func (in *instr) rewrite(f *ast.File) {
 				}
 			}
 		case *ast.CallExpr:
+			if f, ok := n.Fun.(*ast.Ident); ok {
+				if _, isBuiltin := in.info.Uses[f].(*types.Builtin); isBuiltin {
+					if f.Name == "append" && n.Ellipsis.IsValid() && len(n.Args) == 2 {
+						if at, ok := in.info.Types[n.Args[1]]; ok {
+							if isByteSlice(at.Type.Underlying()) {
+								n.Args[1] = vrtCall("SpreadB", n.Args[1])
+							} else if isString(at.Type.Underlying()) {
+								n.Args[1] = vrtCall("SpreadS", n.Args[1])
+							}
+						}
+					}
+					if f.Name == "copy" && len(n.Args) == 2 {
+						if at, ok := in.info.Types[n.Args[1]]; ok {
+							if isByteSlice(at.Type.Underlying()) {
+								n.Args[1] = vrtCall("SpreadB", n.Args[1])
+							} else if isString(at.Type.Underlying()) {
+								n.Args[1] = vrtCall("SpreadS", n.Args[1])
+							}
+						}
+					}
+				}
+			}
 			if len(n.Args) == 1 {
 				if tv, ok := in.info.Types[n.Fun]; ok && tv.IsType() {
 					if at, ok := in.info.Types[n.Args[0]]; ok && at.Value == nil {
@@ -522,6 +555,50 @@ func (in *instr) rewrite(f *ast.File) {
 	if !uses {
 		astutil.DeleteNamedImport(in.fset, f, "vrt", "verif/vrt")
 	}
+}
+
+// rewriteMapRange turns `for k, v := range m` into a loop over vrt.SortedMap(m).
+func (in *instr) rewriteMapRange(n *ast.RangeStmt, mt *types.Map) bool {
+	qual := func(p *types.Package) string {
+		if p == nil || p.Path() == in.pkgPath {
+			return ""
+		}
+		return p.Name()
+	}
+	texpr := func(t types.Type) ast.Expr {
+		e, err := parser.ParseExpr(types.TypeString(t, qual))
+		if err != nil {
+			return nil
+		}
+		return e
+	}
+	kt, vt := texpr(mt.Key()), texpr(mt.Elem())
+	if kt == nil || vt == nil {
+		return false
+	}
+	tok := n.Tok
+	if tok != token.DEFINE && tok != token.ASSIGN {
+		tok = token.DEFINE
+	}
+	var pre []ast.Stmt
+	bind := func(target ast.Expr, field string, t ast.Expr) {
+		if target == nil {
+			return
+		}
+		if id, ok := target.(*ast.Ident); ok && id.Name == "_" {
+			return
+		}
+		val := &ast.TypeAssertExpr{X: &ast.SelectorExpr{X: ast.NewIdent("kv__"), Sel: ast.NewIdent(field)}, Type: t}
+		pre = append(pre, &ast.AssignStmt{Lhs: []ast.Expr{target}, Tok: tok, Rhs: []ast.Expr{val}})
+	}
+	bind(n.Key, "K", kt)
+	bind(n.Value, "V", vt)
+	n.X = vrtCall("SortedMap", n.X)
+	n.Key = ast.NewIdent("_")
+	n.Value = ast.NewIdent("kv__")
+	n.Tok = token.DEFINE
+	n.Body.List = append(pre, n.Body.List...)
+	return true
 }
 
 func wrapTyped(t types.Type, in *instr, call *ast.CallExpr) ast.Expr {
